@@ -154,6 +154,12 @@ def kde_cases(draw, tier):
         train[0] = train[0] + [flat[0] + 2.0]
     train2 = draw(st.lists(seq, min_size=1, max_size=3))
     test = draw(st.lists(seq, min_size=1, max_size=4))
+    # a long sequence (beyond any plausible internal block size) generated from a drawn seed
+    if draw(st.sampled_from([False, False, True])):
+        import random as _random
+        n_long = draw(st.sampled_from([1025, 1500, 2600, 4097]))
+        rnd = _random.Random(draw(st.integers(0, 10 ** 6)))
+        test = test + [[round(rnd.uniform(-5, 20), 3) for _ in range(n_long)]]
     bw = draw(st.sampled_from([0.05, 0.3, 1.0, 2.5, 5.0, 0.3, 1.0, None]))
     if bw is None:
         # the jackknife bandwidth search needs >= 2 values per sequence and >= 2 distinct values overall
